@@ -254,11 +254,22 @@ def r3_owed(prog, rep: Report, fm: Cls, mp: Func):
             if qc[1] == "blocking":
                 lp = None
                 p = getattr(c, "_parent", None)
+                counted = None
                 while p is not None and not isinstance(p, ast.FunctionDef):
                     if isinstance(p, ast.While):
                         lp = p
                         break
+                    if isinstance(p, ast.For) and isinstance(p.iter, ast.Call) and src(p.iter.func) == "range" and len(p.iter.args) == 1 \
+                            and isinstance(p.iter.args[0], ast.BinOp) and isinstance(p.iter.args[0].op, ast.Sub) and counted is None \
+                            and not any(isinstance(x, (ast.Break, ast.Continue)) for x in ast.walk(p)):
+                        # for _ in range(<sent> - <finished>): one blocking get per result still owed
+                        counted = ast.copy_location(ast.Compare(left=p.iter.args[0].right, ops=[ast.Lt()], comparators=[p.iter.args[0].left]), p)
+                        ast.fix_missing_locations(counted)
+                        break
                     p = getattr(p, "_parent", None)
+                if counted is not None and _owed_test(counted, f):
+                    rep.ok("C05.R3", f, "get:blocking", f"blocking get once per owed result: `for _ in {src(p.iter)}`")
+                    continue
                 owed = lp is not None and _owed_test(lp.test, f)
                 rep.check("C05.R3", f, f"get:blocking", owed, f"blocking get under `while {src(lp.test) if lp is not None else '?'}`",
                           "a blocking get on the results queue is not guarded by `finished < sent`: it waits for a result nobody owes",
@@ -379,7 +390,10 @@ def r5_shutdown(prog, rep: Report, fm: Cls, mp: Func):
                                     for c in ast.walk(l) if isinstance(c, ast.Call))]
     joins = [l for l in loops if any(isinstance(c, ast.Call) and isinstance(c.func, ast.Attribute) and c.func.attr == "join"
                                      for c in ast.walk(l))]
-    ok = len(sent) == 1 and src(sent[0].iter) in (f"range(len({sn}.procs))", f"{sn}.procs") and len(sent[0].body) == 1
+    from ..flow import Flow as _Fl
+    from ..util import expand_all as _ea
+    _xfl = _Fl(ex.node)
+    ok = len(sent) == 1 and src(_ea(sent[0].iter, _xfl)) in (f"range(len({sn}.procs))", f"{sn}.procs") and len(sent[0].body) == 1
     rep.check("C05.R5", ex, "sentinels", ok, "one None per element of self.procs", "__exit__ does not send one None per worker",
               scenario="FunctorMap with 3 workers sends 2 sentinels: join() of the third never returns")
     ok = len(joins) == 1 and src(joins[0].iter) == f"{sn}.procs" and (not sent or ex.node.body.index(sent[0]) < ex.node.body.index(joins[0])) \
@@ -426,9 +440,9 @@ def r5_shutdown(prog, rep: Report, fm: Cls, mp: Func):
                   line=cond_starts[0][0].lineno if cond_starts else None)
     drain_i = None
     for i, st in enumerate(body):
-        if isinstance(st, ast.While) and any(isinstance(c, ast.Call) and queue_call(c) and queue_call(c) == ("get", "blocking")
-                                             for c in ast.walk(st)):
-            drain_i = i
+        if isinstance(st, (ast.While, ast.For)) and any(isinstance(c, ast.Call) and queue_call(c) and queue_call(c) == ("get", "blocking")
+                                                        for c in ast.walk(st)):
+            drain_i = i               # (a counted `for _ in range(sent - finished)` drains like the `while finished < sent` loop)
     rep.check("C05.R5", mp, "joins", join_i is not None and sent_i is not None and join_i > sent_i,
               "every worker joined after the sentinels", "mul_p_map does not join its workers after sending the sentinels",
               scenario="worker processes are left running after the call returned")
